@@ -144,12 +144,14 @@ func (p *ProjectRunner) runProcess(config *types.ProcessConfig) {
 	go func(proc *Process) {
 		defer p.removeRunningProcess(proc)
 		defer p.waitGroup.Done()
+		verifYield("runProcess.beforeWait", proc.getName())
 		if err = p.waitIfNeeded(proc.procConf); err != nil {
 			log.Error().Msgf("Error: %s", err.Error())
 			log.Error().Msgf("Error: process %s won't run", proc.getName())
 			proc.wontRun()
 			p.onProcessSkipped(proc.procConf)
 		} else {
+			verifYield("runProcess.afterWait", proc.getName())
 			exitCode := proc.run()
 			p.addDoneProcess(proc)
 			p.onProcessEnd(exitCode, proc.procConf)
@@ -337,6 +339,7 @@ func (p *ProjectRunner) StartProcess(name string) error {
 		log.Error().Msgf("Process %s is already running", name)
 		return fmt.Errorf("process %s is already running", name)
 	}
+	verifYield("start.afterRunningCheck", name)
 	if processConfig, ok := p.project.Processes[name]; ok {
 		p.runProcess(&processConfig)
 	} else {
@@ -394,6 +397,7 @@ func (p *ProjectRunner) RestartProcess(name string) error {
 			log.Err(err).Msgf("failed to stop process %s", name)
 			return err
 		}
+		verifYield("restart.afterStop", name)
 		time.Sleep(proc.getBackoff())
 	}
 
@@ -563,6 +567,7 @@ func (p *ProjectRunner) ShutDownProject() error {
 		nameOrder = append(nameOrder, v.getName())
 	}
 	log.Debug().Msgf("Shutting down %d processes. Order: %q", len(shutdownOrder), nameOrder)
+	verifYield("shutdown.afterCollect", "")
 	for _, proc := range shutdownOrder {
 		proc.prepareForShutDown()
 	}
